@@ -215,6 +215,8 @@ def decide(check, crate, oid, setup, post, replay=None, rb=None, unwind=8, enums
         return "inconclusive"
     if status == "holds" and known:
         for k in known:
+            if k.get("report_in") not in (None, oid):
+                continue
             if replay is not None and k.get("witness") is not None:
                 okr, text = replay(k["witness"], rb)
                 if okr:
